@@ -68,11 +68,13 @@ def main():
         traceback.print_exc()
         tb = traceback.extract_tb(e.__traceback__)
         inner = tb[-1].filename if tb else ""
-        if "/okdmr/" in inner and "/verif/" not in inner:
+        worker_in_lib = getattr(e, "in_library", False)
+        if worker_in_lib or ("/okdmr/" in inner and "/verif/" not in inner):
             # the exception was raised *inside the library* while the harness was preparing or running cases on inputs the
             # property covers (on the unchanged tree this never happens): report it, do not hide it behind a checker crash
-            from mc.report import exc_sig
+            from mc.report import exc_sig as _exc_sig
 
+            exc_sig = (lambda _e: getattr(_e, "sig", "")) if worker_in_lib else _exc_sig
             rdir = os.environ.get("VERIF_REPLAY_DIR") or os.path.join(HERE, "replays")
             os.makedirs(rdir, exist_ok=True)
             path = os.path.join(rdir, f"{pid}-crash.json")
